@@ -125,7 +125,27 @@ fn advance_answering(eng: &mut Engine, ms_total: u64, silent: Option<usize>) {
 }
 
 // run prelude + setup + the first `cut` generated ops; None if the model lost sync (foreign)
-fn run_prefix(b: &Built, case: &ScCase, cut: usize, st: &mut Stats) -> Option<Engine> {
+// A handler that aborts ends its session without any clean-up: whatever the cause, the user is
+// left behind as a ghost - the session-end property is violated on the spot.
+fn abort_in(eng: &Engine, o: &StepOut) -> Option<Viol> {
+    for d in &o.discs {
+        if let Disc::Panic { conn, msg, loc } = d {
+            let mut t = eng.tail(30);
+            t.push(format!("-- step: {}", o.sent));
+            return Some(
+                Viol::new(
+                    "C06.panic",
+                    format!("prefix-abort:{}", o.sent.split(' ').next().unwrap_or("")),
+                    format!("after `{}` the handler of c{:?} aborted ({} at {}): its session ended without clean-up", o.sent, conn, msg, loc),
+                )
+                .with_transcript(t),
+            );
+        }
+    }
+    None
+}
+
+fn run_prefix(b: &Built, case: &ScCase, cut: usize, st: &mut Stats) -> Result<Option<Engine>, Viol> {
     let seed = case.cfg.get(0).copied().unwrap_or(0) as u64;
     let mut eng = Engine::new(&b.cfg, seed);
     // a surplus reply on the acting connection alone does not mean that the model lost the
@@ -145,18 +165,24 @@ fn run_prefix(b: &Built, case: &ScCase, cut: usize, st: &mut Stats) -> Option<En
     for i in 0..b.prelude_users {
         let (_, outs) = eng.register(&b.prof.nicks[i], &format!("u{}", i));
         for o in outs {
+            if let Some(v) = abort_in(&eng, &o) {
+                return Err(v);
+            }
             if !ok(&eng, &o) {
                 st.count("abandoned_foreign");
-                return None;
+                return Ok(None);
             }
         }
     }
     for (nick, line) in &b.setup {
         if let Some(c) = eng.model.conn_of(nick) {
             let o = eng.line(c, line);
+            if let Some(v) = abort_in(&eng, &o) {
+                return Err(v);
+            }
             if !ok(&eng, &o) {
                 st.count("abandoned_foreign");
-                return None;
+                return Ok(None);
             }
         }
     }
@@ -166,13 +192,16 @@ fn run_prefix(b: &Built, case: &ScCase, cut: usize, st: &mut Stats) -> Option<En
             continue;
         }
         for o in apply_op(&mut eng, &op) {
+            if let Some(v) = abort_in(&eng, &o) {
+                return Err(v);
+            }
             if !ok(&eng, &o) {
                 st.count("abandoned_foreign");
-                return None;
+                return Ok(None);
             }
         }
     }
-    Some(eng)
+    Ok(Some(eng))
 }
 
 fn viol_from(eng: &Engine, o: &StepOut, kind: &str, what: &str) -> Viol {
@@ -416,7 +445,7 @@ pub fn check(case: &ScCase, st: &mut Stats) -> Result<(), Viol> {
         // two victims per cut point (rotating) x every end kind
         for vi in 0..2 {
             for (ki, kind) in END_KINDS.iter().enumerate() {
-                let Some(mut eng) = run_prefix(&b, case, cut, st) else { return Ok(()) };
+                let Some(mut eng) = run_prefix(&b, case, cut, st)? else { return Ok(()) };
                 let regs = registered_conns(&eng.model);
                 // the victim is never n0 (the operator who kills / sends WALLOPS)
                 let cands: Vec<usize> = regs.iter().cloned().filter(|c| eng.model.nick_of(*c) != Some("n0")).collect();
@@ -455,7 +484,7 @@ pub fn check(case: &ScCase, st: &mut Stats) -> Result<(), Viol> {
         }
     }
     // several sessions ending in the same step
-    if let Some(mut eng) = run_prefix(&b, case, case.ops.len(), st) {
+    if let Some(mut eng) = run_prefix(&b, case, case.ops.len(), st)? {
         let regs = registered_conns(&eng.model);
         let cands: Vec<usize> = regs.iter().cloned().filter(|c| eng.model.nick_of(*c) != Some("n0")).collect();
         if cands.len() >= 2 {
